@@ -371,3 +371,88 @@ Proof. exact: solve_dispatch_payload. Qed.
 Print Assumptions C18_solver_dispatch_returns_solution_entry.
 Example C18_nonvacuous_solver_dispatch : solve_dispatch_example_stmt.
 Proof. exact: solve_dispatch_example. Qed.
+
+(* ======================================================================== *)
+(* svd / eigen / propagator routes given the decomposition oracles.           *)
+From QV Require Import Proofs.C18_routes.
+
+(* _steadystate_svd picks the last column of vh^dagger.  For ANY factorisation
+   L = U diag(s) Vh with Vh Vh^dagger = 1 (the svd oracle) its residual is the
+   last singular value times the last column of U; it is a null vector as soon
+   as that singular value is 0 *)
+Theorem C18_svd_picked_vector_residual :
+  forall (R : fieldType) (conj : {rmorphism R -> R}) (N' : nat)
+         (L U : 'M[R]_N'.+1) (vhf : fmx R) (s : 'rV[R]_N'.+1),
+  let Vh := mx_of_fn N'.+1 N'.+1 vhf in
+  L = U *m diag_mx s *m Vh -> Vh *m dag conj Vh = 1%:M ->
+  let v := col_of_fn N'.+1 (svd_pick conj N'.+1 vhf) in
+  L *m v = s 0 ord_max *: col ord_max U /\ (s 0 ord_max = 0 -> L *m v = 0).
+Proof.
+move=> R conj N' L U vhf s /= E VV; rewrite (svd_pick_bridge (Vh:=mx_of_fn _ _ vhf) _ erefl).
+by split; [exact: (svd_pick_residual E VV)|exact: (svd_pick_null E VV)].
+Qed.
+Print Assumptions C18_svd_picked_vector_residual.
+Example C18_nonvacuous_svd_oracle :
+  let I1 := (1%:M : 'M[rat]_1) in
+  (0 : 'M[rat]_1) = I1 *m diag_mx (0 : 'rV[rat]_1) *m I1 /\
+  I1 *m dag [rmorphism of idfun] I1 = 1%:M.
+Proof. exact: svd_hyps_example. Qed.
+
+(* _steadystate_eigen takes the eigenvector of L^dag L for the lowest
+   eigenvalue: |L v|^2 = lambda |v|^2, and for lambda = 0 it is a null vector
+   of L (in any field where x^dag x = 0 forces x = 0) *)
+Theorem C18_eigen_zero_eigenvector_is_null :
+  forall (R : fieldType) (conj : {rmorphism R -> R}) (N : nat),
+  (forall x : 'cV[R]_N, dag conj x *m x = 0 -> x = 0) ->
+  forall (L : 'M[R]_N) (v : 'cV[R]_N),
+  (forall lam, (dag conj L *m L) *m v = lam *: v ->
+     dag conj (L *m v) *m (L *m v) = lam *: (dag conj v *m v)) /\
+  ((dag conj L *m L) *m v = 0 -> L *m v = 0).
+Proof.
+move=> R conj N def L v; split; first by move=> lam; exact: gram_norm.
+exact: eigen_null.
+Qed.
+Print Assumptions C18_eigen_zero_eigenvector_is_null.
+Example C18_nonvacuous_definite :
+  forall x : 'cV[rat]_1, dag [rmorphism of idfun] x *m x = 0 -> x = 0.
+Proof. exact: definite_rat1. Qed.
+
+(* dense fallback of _steadystate_eigen: the sparse solver's vector is used
+   only when sparse was requested AND its eigenvalue passed the smallness test;
+   the solver is called once, or twice (sparse then dense) when the test fails *)
+Theorem C18_eigen_fallback_decision :
+  forall (V : Type) sparse big (vs vd : V),
+  (sparse && ~~ big -> eigen_pick sparse big vs vd = vs) /\
+  (~~ (sparse && ~~ big) -> eigen_pick sparse big vs vd = vd) /\
+  eigen_calls sparse big = (if sparse && big then [:: true; false] else [:: sparse]).
+Proof.
+move=> V sparse big vs vd; have [a b] := eigen_pick_sparse sparse big vs vd.
+by split=> //; split=> //; exact: eigen_calls_spec.
+Qed.
+Print Assumptions C18_eigen_fallback_decision.
+Example C18_nonvacuous_eigen_fallback :
+  eigen_pick true true 1%N 2%N = 2%N /\ eigen_pick true false 1%N 2%N = 1%N /\
+  eigen_calls true true = [:: true; false].
+Proof. by []. Qed.
+
+(* propagator method: the loop returns in the first iteration whose distance
+   test passes, raises exactly when none of the iterations 0..max_iter-1 passes,
+   and the propagator applied in iteration k is the initial one to the 2^k *)
+Theorem C18_propagator_loop_returns_first_converged :
+  forall max_iter conv k, expm_result max_iter conv = Some k ->
+  [/\ (k < max_iter)%N, conv k & forall j, (j < k)%N -> ~~ conv j].
+Proof. exact: expm_result_some. Qed.
+Print Assumptions C18_propagator_loop_returns_first_converged.
+Theorem C18_propagator_loop_raises_iff :
+  forall max_iter conv,
+  expm_result max_iter conv = None <-> (forall j, (j < max_iter)%N -> ~~ conv j).
+Proof. exact: expm_result_none. Qed.
+Print Assumptions C18_propagator_loop_raises_iff.
+Theorem C18_propagator_uses_power_of_two_steps :
+  forall (A : ringType) (p : A) k, sq_iter *%R p k = p ^+ (2 ^ k).
+Proof. exact: sq_iter_exp. Qed.
+Print Assumptions C18_propagator_uses_power_of_two_steps.
+Example C18_nonvacuous_propagator_loop :
+  expm_result 30 (fun k => (3 <= k)%N) = Some 3%N /\
+  expm_result 3 (fun k => (3 <= k)%N) = None /\ sq_iter muln 3%N 2 = 81%N.
+Proof. by []. Qed.
